@@ -33,7 +33,8 @@ def resJson (r : Query.Result) : Json :=
 def tokJson (t : Query.Token) : Json := jarr [Json.str (toString (repr t.kind)), jstr t.text]
 
 /-- `c15.parse {text}` → parse outcome; `c15.eval {text, tree}` → outcome, match, results;
-`c15.tok {text}` → token texts.  `legacy: true` selects the code before the repair. -/
+`c15.tok {text}` → token texts; `c15.batch {queries, names, trees}` → the batch interface.
+`legacy: true` / `structeq: true` select the code before the two repairs. -/
 def handle (op : String) (j : Json) : Option (Except String Json) :=
   match op with
   | "c15.tok" => some do
@@ -49,13 +50,29 @@ def handle (op : String) (j : Json) : Option (Except String Json) :=
   | "c15.eval" => some do
       let s ← getStr j "text"
       let legacy := getBoolD j "legacy" false
+      let se := getBoolD j "structeq" false
       let t ← treeOf (← getVal j "tree")
       match Query.parseWith legacy s with
       | .ok e =>
-        let rs := Query.eval e t
-        pure <| jobj [("ok", jbool true), ("err", Json.null), ("match", jbool (Query.isMatch e t)),
+        let rs := Query.evalWith se e t
+        pure <| jobj [("ok", jbool true), ("err", Json.null), ("match", jbool (Query.isMatchWith se e t)),
                       ("results", jarr (rs.map resJson))]
       | .error e => pure <| jobj [("ok", jbool false), ("err", Json.str (errName e))]
+  | "c15.batch" => some do
+      -- `get_query_handlers(queries, names)` then `search_hed_objs(objs, <compiled handlers>, ...)`
+      let qs ← (← getArr j "queries").mapM asStr
+      let names : Option (List Str) ← match j.getObjVal? "names" with
+        | .ok (Json.arr a) => (a.toList.mapM asStr).map some
+        | _ => pure none
+      let se := getBoolD j "structeq" false
+      let trees ← (← getArr j "trees").mapM treeOf
+      match Query.getHandlers qs names with
+      | none => pure <| jobj [("none", jbool true)]
+      | some (hs, nm, n) =>
+        let good := hs.filterMap id
+        pure <| jobj [("none", jbool false), ("handlers", jarr (hs.map (fun h => jbool h.isSome))),
+                      ("names", jarr (nm.map jstr)), ("issues", jnat n),
+                      ("cells", jarr ((Query.searchObjs se trees good).map (fun row => jarr (row.map jnat))))]
   | _ => none
 
 end HedVerif.Driver.C15
